@@ -17,9 +17,14 @@ and the exact error (`C13_clone_succeeds`, `C13_clone_error_exact`, `C13_clone_r
 Round 3b: `C13_wiring_image` (the clone's wiring is the image of the source's under the value map,
 Lemmas/CloneWire.lean) with `C13_faithful_of_wiring` / `C13_faithful_observe_wiring` derived from it,
 `C13_model_clone_succeeds` / `C13_model_clone_raises_iff` (walker locality, Lemmas/CloneLocal.lean,
-CloneModelTotal.lean), `C13_spec_unbound_D342`.
+CloneModelTotal.lean), `C13_spec_unbound_D342`, `C13_functionalize_any` (`functionalize` of ANY
+pipeline of passes), the frame theorems over the 55-call alphabet `Edit3` (`*_ext3`,
+Lemmas/CloneFrame3.lean: `sort` with subgraphs through property C12's `sortModel`, slices of graph
+inputs / outputs, `initializers.pop / clear / update`, `extend`, `remove(safe=True)`,
+`convenience.replace_all_uses_with` / `rename_values` / `replace_nodes_and_values`).
 Not proved (differential / oracle only): `deep_copy=True` copying the objects stored in `meta`,
-in-place state of shared `Attr` objects (D114) and shared tensors (D113).
+in-place state of shared `Attr` objects (D114) and shared tensors (D113), editing calls outside
+`Edit3`, the extended alphabets for clones made with `allow_outer_scope_values=True` (false by design).
 -/
 import IrVerif.Lemmas.Clone
 import IrVerif.Lemmas.CloneFrame
